@@ -45,6 +45,18 @@ func genC10(r *Rng, tier string) *Plan {
 	}
 	fixAliasesAfterRename(g)
 	g.AddUnrelated(r.Intn(4))
+	// the user's own files whose names look like scratch or backup copies of an artifact: they are
+	// unrelated files like any other
+	for _, e := range g.Ents {
+		if r.Chance(1, 6) {
+			nm := e.PemPath() + Pick(r, []string{".tmp", ".bak", "~", ".new", ".old", ".swp", ".part", ".lock"})
+			if r.Chance(1, 4) {
+				nm = joinDir(e.Dir, Pick(r, []string{".", "#"})+e.Name+".pem"+Pick(r, []string{".swp", "#", ".tmp"}))
+			}
+			g.P.Add(Op{K: "put-file", Path: nm, Data: "user data, not gopki's\n"})
+			g.P.Meta["artifact-lookalikes"] = "1"
+		}
+	}
 	g.ImportKeys()
 	flags := uint8(r.Intn(16))
 	if r.Chance(1, 8) {
@@ -135,7 +147,7 @@ func exploreC10(t *testing.T, seed uint64, idx int, tier string, sink *Sink) {
 	}
 	sink.Cell("lane:S")
 	sink.Report(w)
-	if len(w.Viol) == 0 && w.Harness == "" && (idx%12 == 0 || plan.Meta["trailing-text"] != "" && idx%3 == 0) {
+	if len(w.Viol) == 0 && w.Harness == "" && (idx%12 == 0 || (plan.Meta["trailing-text"] != "" || plan.Meta["artifact-lookalikes"] != "") && idx%3 == 0) {
 		laneP_C10(t, plan, w, sink)
 	}
 }
